@@ -431,6 +431,20 @@ def sample_counts(at, k):
     return list(k)
 
 
+def coincident_two_point(at, k):
+    """True if two interfaces between the same pair of junctions would both be realised without interior points (the same pair
+    of vertices twice: not a planar mesh, outside every statement)"""
+    ks = sample_counts(at, k)
+    seen = set()
+    for ii, it in enumerate(at["I"]):
+        if ks[ii] == 0:
+            key = frozenset((it["a"], it["b"]))
+            if key in seen:
+                return True
+            seen.add(key)
+    return False
+
+
 def geometry(at, k=3, cmap=None):
     """image coordinates: returns (jpos {jid: complex}, ipts [list of complex incl. both ends a->b])"""
     cmap = cmap or CMap()
